@@ -26,8 +26,14 @@ func Rate() api.Builder {
 				workers *workers.PoolManager,
 				options options.RunOptions,
 			) {
-				doWork := NewWorker(options.Concurrency)
-				doWork(ctx, output, workers, options)
+				// Once ctx is done the run waits for the users still in an iteration itself, for at most its
+				// completion timeout. Waiting for them here as well would make that wait unbounded.
+				pool := workers.NewContinuousPool(options.Concurrency)
+				pool.Start(ctx)
+				select {
+				case <-ctx.Done():
+				case <-workers.WaitForCompletion():
+				}
 			}
 
 			return &api.Trigger{
